@@ -20,15 +20,28 @@ structure LexerOk (E : Env) : Prop where
   tiles : ∀ i text, i < numLangs → RawOk text (E.lexOf i text)
   nonempty : ∀ i text, i < numLangs → ∀ t ∈ E.lexOf i text, t.kind ≠ 6 → t.val ≠ []
 
-/-- **the environment contract**: the lexer contract; decoded text, checksums and the version are
-Python strings without an adjacent (high, low) surrogate pair (decoding UTF-8 or Latin-1 yields no
-surrogates at all; an MD5 hex digest is ASCII); MD5 has no collisions among the contents that
-occur -/
-structure EnvOk (E : Env) : Prop where
+/-- **the environment contract, without any assumption on MD5**: the lexer contract; decoded
+text, checksums and the version are Python strings without an adjacent (high, low) surrogate pair
+(decoding UTF-8 or Latin-1 yields no surrogates at all; an MD5 hex digest is ASCII) -/
+structure EnvBase (E : Env) : Prop where
   lexer : LexerOk E
   decode : ∀ b, Json.GoodStr (E.decode b)
   checksum : ∀ b, Json.GoodStr (E.checksum b)
   version : Json.GoodStr E.version
+
+/-- **MD5 has no collision among the byte strings in `U`.**  This is the form in which the
+hypothesis of C09 is met by a real digest: `U` is the (finite) set of contents that occur in the
+history under consideration (`CacheOkOn`, `ScannedIn`), not the set of all byte strings. -/
+def CollisionFree (E : Env) (U : Str → Prop) : Prop :=
+  ∀ c c', U c → U c' → E.checksum c = E.checksum c' → c = c'
+
+/-- the IDEALISED environment contract: `EnvBase` plus GLOBAL injectivity of the checksum on all
+byte strings.  No fixed-length digest satisfies `md5` (pigeonhole); it is met by toy codes such as
+the unary code of `Props/Pipeline.lean`, `Ex.exE`.  The theorems of `Props/Pipeline.lean` do NOT
+assume it: they are stated with `EnvBase` and `HistoryOk` (collision-freeness on the contents that
+occur); `EnvOk` remains as the convenient special case `U = everything` (`HistoryOk.of_injective`)
+and because `Props/C09sel.lean` and the `SelectCache*` lemmas are stated with it. -/
+structure EnvOk (E : Env) : Prop extends EnvBase E where
   md5 : Function.Injective E.checksum
 
 /-- the strings of a run (absolute root path, uuid, ISO timestamp, GitHub repository) are such
@@ -67,6 +80,35 @@ inductive CacheOk (E : Env) : Option Str → Prop
       p <+: bytes → CacheOk E (some p)
   | foreign {bytes : Str} : Foreign E bytes → CacheOk E (some bytes)
 
+/-- **the contents a scan reads lie in `U`**: the bytes of every file the scan of the directory
+with entries `ch` under the exclusion lines `pats` hands to `_scan_file` - the files it lists:
+not hidden, not excluded, with a supported language (`Sel.Selected`) - belong to `U` -/
+def ScannedIn (E : Env) (pats : List Gi.Pat) (ch : List Node) (U : Str → Prop) : Prop :=
+  ∀ p c lang, Selected (oracles E pats) ch p c lang → U c
+
+/-- `CacheOk` with the contents recorded: **the cache file was produced by a history of scans
+all of whose scanned contents lie in `U`** (or is absent, or a prefix of such a file, or
+`Foreign`).  `CacheOk E prev` is `CacheOkOn E (fun _ => True) prev` (`CacheOk.on`). -/
+inductive CacheOkOn (E : Env) (U : Str → Prop) : Option Str → Prop
+  | missing : CacheOkOn E U none
+  | written {R : Run} {rn : Str} {ch : List Node} {prev : Option Str} {d : Json.ReportData} {bytes : Str} :
+      CacheOkOn E U prev → RunOk R → TreeOk ch → ScannedIn E R.pats ch U →
+      scan E R (.dir rn ch) prev = .ok (d, bytes) → CacheOkOn E U (some bytes)
+  | cut {R : Run} {rn : Str} {ch : List Node} {prev : Option Str} {d : Json.ReportData} {bytes p : Str} :
+      CacheOkOn E U prev → RunOk R → TreeOk ch → ScannedIn E R.pats ch U →
+      scan E R (.dir rn ch) prev = .ok (d, bytes) → p <+: bytes → CacheOkOn E U (some p)
+  | foreign {bytes : Str} : Foreign E bytes → CacheOkOn E U (some bytes)
+
+/-- **what the end-to-end theorems assume about the cache file and MD5** for a scan of the
+directory `ch` under the exclusion lines `pats` that finds the cache file `prev`: either there is
+no cache file (then nothing is assumed: no checksum is ever compared), or there is a set `U` of
+byte strings on which MD5 has no collision and which contains the contents of the files this
+scan reads and of the files read by every scan of the history that produced `prev`.
+For real MD5 this is the statement "no two of the finitely many file contents involved collide";
+it does not require injectivity on all byte strings. -/
+def HistoryOk (E : Env) (pats : List Gi.Pat) (ch : List Node) (prev : Option Str) : Prop :=
+  prev = none ∨ ∃ U, CollisionFree E U ∧ ScannedIn E pats ch U ∧ CacheOkOn E U prev
+
 /-- the entry the report must hold for a file with bytes `c` whose name selects lexer `lang`
 (language `x`), when `_analyze_file` returns `ms` -/
 def entryFor (E : Env) (c : Str) (x : String × Language) (ms : List Measurement) : Json.FileData :=
@@ -90,12 +132,37 @@ def measurementsUnder (k : Str) (files : List (Str × Json.FileData)) : List Jso
 /-- number of lines of a text: `len(text.split("\n"))` -/
 def numLines (text : Str) : Nat := 1 + text.count 10
 
-/-- a report measurement is well-formed for the text it was taken from: lines in range, the start
-strictly before the end, columns from 1, at least one line, and the name is a slice of the text -/
-def MeasWf (text : Str) (m : Json.Meas) : Prop :=
+/-- a raw lexer token counts as CODE: it is neither whitespace (a `Text` / `Whitespace` token
+that is empty or blank) nor a comment - what `filter_tokens` keeps for `scan_file` -/
+def isCodeTok (r : RawTok) : Bool :=
+  !(r.kind == 6 && (r.val.isEmpty || strIsSpace r.val)) && !(r.kind == 5)
+
+/-- the lines on which the code tokens of `raw` whose offset lies in `[a, b]` START (one entry per
+token; `countDistinct` of it is the number of code-bearing lines of the span) -/
+def codeLines (text : Str) (raw : List RawTok) (a b : Nat) : List Nat :=
+  ((raw.filter isCodeTok).filter (fun r => decide (a ≤ r.off ∧ r.off ≤ b))).map (fun r => lineOf text r.off)
+
+/-- **a report measurement is well-formed for the text it was taken from and the lexer's tokens
+of that text** - the per-measurement clause of C05, on the report: there are code tokens `ri`
+(first of the span), `rj` (last of the span) and a `Name` token `rk` of the lexer output with
+
+* `ri.off ≤ rk.off`, the name token ends at or before the end of `rj`, which lies inside the text;
+* the start `(sl, sc)` is the (line, column) of the offset of `ri`, the end `(el, ec)` is the
+  (line, column) of the offset just past `rj` (so `1 ≤ sl ≤ el ≤` number of lines, columns from 1);
+* the unit name is the text of `rk`, found in the text at the offset of `rk` - INSIDE the span;
+* `1 ≤ value ≤` the number of distinct lines on which the code tokens lying in the span start
+  (the code-bearing lines of the span; `MeasWf.value_le_lines`: hence `value ≤ el - sl + 1`). -/
+def MeasWf (text : Str) (raw : List RawTok) (m : Json.Meas) : Prop :=
   1 ≤ m.sl ∧ m.sl ≤ m.el ∧ m.el ≤ numLines text ∧ (m.sl < m.el ∨ (m.sl = m.el ∧ m.sc < m.ec)) ∧
-  1 ≤ m.sc ∧ 1 ≤ m.ec ∧ 1 ≤ m.value ∧
-  ∃ o, o + m.unitName.length ≤ text.length ∧ (text.drop o).take m.unitName.length = m.unitName
+  1 ≤ m.sc ∧ 1 ≤ m.ec ∧
+  ∃ ri rj rk, ri ∈ raw ∧ rj ∈ raw ∧ rk ∈ raw ∧
+    isCodeTok ri = true ∧ isCodeTok rj = true ∧ isCodeTok rk = true ∧ rk.kind = 2 ∧
+    ri.off ≤ rk.off ∧ rk.off + rk.val.length ≤ rj.off + rj.val.length ∧
+    rj.off + rj.val.length ≤ text.length ∧
+    m.sl = lineOf text ri.off ∧ m.sc = colOf text ri.off ∧
+    m.el = lineOf text (rj.off + rj.val.length) ∧ m.ec = colOf text (rj.off + rj.val.length) ∧
+    m.unitName = rk.val ∧ (text.drop rk.off).take rk.val.length = rk.val ∧
+    1 ≤ m.value ∧ m.value ≤ countDistinct (codeLines text raw ri.off rj.off)
 
 /-- the functions of a report entry that `check` lists: longer than 30 lines, longest first,
 functions of equal length in report order -/
